@@ -174,9 +174,21 @@ def run_unit(unit, ctx):
         p, norm, kind = gen_point(rng, names)
         for s in cal_syms:
             p[s.name] = p0[s.name]
+        use_array = None
+        if pi % 10 == 5:
+            # integer lattice point handed over as an int64 array through State.from_data
+            for s in sm.state:
+                p[s.name] = float(int(round(p[s.name] * 3)))
+            use_array = "int64"
         ref = reference(p)
         try:
             st = model.State(**{s.name: p[s.name] for s in sm.state})
+            if use_array:
+                import numpy as np
+
+                lay = monitors.names_of(model.State)
+                st = model.State.from_data(np.array([[int(p[n])] for n in lay], dtype=np.int64).reshape(len(lay), 1))
+                R.stats.inc("state_from_data_int64_points")
             ct = model.Control(**{s.name: p[s.name] for s in sm.control})
             res = model.model(float(p["dt"]), st, ct)
         except Exception as e:  # noqa: BLE001
